@@ -571,3 +571,43 @@ func TestF26_OutputFilterFromNewFunc(t *testing.T) {
 		t.Fatal("Redefine succeeded although the output filter given to NewFunc rejects every output")
 	}
 }
+
+// F27 (C06): Logger(nil) and ConverterGen(nil) made the next Call panic with a nil dereference.
+func TestF27_NilLoggerAndGenerator(t *testing.T) {
+	defer func() {
+		if p := recover(); p != nil {
+			t.Fatalf("panic: %v", p)
+		}
+	}()
+	f := am.MustFunc(am.NewFunc(func(a int) int { return a }))
+	if res := f.Call(am.Typed(3), am.Logger(nil)); res.Err() != nil {
+		t.Fatalf("Logger(nil): %v", res.Err())
+	}
+	if res := f.Call(am.Typed(3), am.ConverterGen(nil)); res.Err() != nil {
+		t.Fatalf("ConverterGen(nil): %v", res.Err())
+	}
+}
+
+// K1 (C07, open): a converter entered through its named input looks for its type-only input without the name
+// discount: the same-named value and its competitor tie.  The test documents the behaviour and never fails.
+func TestK1_MixedConverterTie(t *testing.T) {
+	type tin struct {
+		am.Struct
+		Input string
+	}
+	type cin struct {
+		am.Struct
+		Flag bool
+		N    int `argmapper:",typeOnly"`
+	}
+	other := 0
+	for i := 0; i < 300; i++ {
+		f := am.MustFunc(am.NewFunc(func(in tin) string { return in.Input }))
+		res := f.Call(am.Named("input", 12), am.Named("other", 99), am.Named("flag", true),
+			am.Converter(func(in cin) string { return fmt.Sprint(in.N) }))
+		if res.Err() == nil && res.Out(0).(string) == "99" {
+			other++
+		}
+	}
+	t.Logf("the value named `other` was converted in %d of 300 calls (known finding K1 while > 0)", other)
+}
